@@ -4,6 +4,7 @@ Module containing future related methods and classes
 """
 
 import asyncio
+import logging
 from typing import Any, Awaitable, Callable, Optional
 
 import kiwipy
@@ -22,6 +23,9 @@ chain = kiwipy.chain
 gather = asyncio.gather
 
 Future = asyncio.Future
+
+
+_LOGGER = logging.getLogger(__name__)
 
 
 class CancellableAction(Future):
@@ -53,9 +57,11 @@ class CancellableAction(Future):
                 result = self._action(*args, **kwargs)
             except Exception as exception:
                 if self.done():
-                    # Cancelled while it was running, there is no one left to report to
-                    raise
-                self.set_exception(exception)
+                    # Cancelled while it was running, i.e. superseded by another request: there is no one left to report
+                    # to, and the request that superseded it still has to be served by the caller
+                    _LOGGER.warning('The action %r failed after it had been cancelled', self._action, exc_info=True)
+                else:
+                    self.set_exception(exception)
             else:
                 if not self.done():
                     # (if it was cancelled while it was running, i.e. superseded by another request, it stays cancelled)
